@@ -1,6 +1,89 @@
-"""C08 - the SKELETON around the string operations of the text half (GPR.from_string / GPR.__init__ / GPR.from_symbolic /
-GPR.to_string / the Reaction accessors): everything that is NOT string processing is proved on the real source, the string
-operations are uninterpreted functions named after the operation.  (docstring completed at the end of the module)
+"""C08 - the SKELETON around the string operations of the text half: GPR.from_string, GPR.__init__, GPR.from_symbolic, GPR.to_string,
+the Reaction accessors gene_reaction_rule (getter / setter) and gpr (setter).
+
+The text half of C08 is only bounded (regular expressions, str.replace chains and CPython's parser are outside the SMT fragment).
+Here everything that is NOT string processing is proved on the real source, with the string operations as uninterpreted functions
+named after the operation, so that the evidence separates what is trusted (tokeniser-level functions) from what is proved (plumbing).
+
+Strings (sort Id).  Uninterpreted: str.strip, str.replace, str.__contains__, str.__len__ (the only axiom: len(s) == 0 iff s == ""),
+re.Pattern.sub for the four patterns gene.keyword_re, gene.number_start_re, re.compile(r"\bAND\b"), re.compile(r"\bOR\b"); the
+module constant `replacements` is read from the source (eight pairs) as the functions gene.replacements.char / .escaped.
+    R8(x)    = the fold of `if char in x: x = x.replace(char, escaped)` over the eight pairs (esc_fold, defined by its unfolding)
+    text0(s) = replace(number_start_re.sub(ESC, keyword_re.sub(ESC, R8(strip(s)))), "()", "")        ESC = "__cobra_escape__"
+    text1(s) = OR.sub("or", AND.sub("and", text0(s)))
+Spec functions over text (uninterpreted): ast.parse_accepts(e); gpr_esc_text_is_rule(e) - e is an and/or/&/| expression over
+identifiers; gpr_esc_text_sem(e, K) / gpr_esc_text_names(e) - its Boolean value with the identifiers UN-escaped and the genes K
+absent / its un-escaped identifiers; for raw parse trees: ast_is_parse_of_some_text / ast_parsed_text over the tree heap.
+
+What is proved (K = the arbitrary set of absent genes vis_K of c08_visitors; semh / names / wfh are its heap semantics)
+(1) GPR.from_string(string_gpr), precondition: a text CPython accepts is an and/or/&/| expression over identifiers (`a + b`, `f(a)`
+    are accepted by the parser and raise TypeError / give garbage later: outside).  Cases:
+      not a str                        TypeError, nothing changed
+      strip(s) == ""                   a new GPR without body: evaluates True, no genes, empty name cache, no logger call
+      accepts(text0)                   a new well-formed GPR with a body; semh == esc_sem(text0, K), names == cache == esc_names(text0)
+      rejected, AND/OR in text0, accepts(text1)      the same for text1; logger: "Uppercase AND/OR found in rule '", e.msg
+      rejected, AND/OR, text1 rejected               GPR without body; logger: the two above + "Malformed gene_reaction_rule '",
+                                                     "GPR will be empty"
+      rejected, no AND/OR              the SAME text is parsed a second time (rejected again); GPR without body; the two Malformed lines
+    The loop over `replacements` has the invariant str_expr == esc_fold(strip(s), i) (obligations inv-init / inv-preserve).
+    (What the code does, stated: there is NO ast.fix_missing_locations call; the retry happens only inside the except branch; the
+    engine drops `warn(...)` statements - DESIGN 2.1 - so the SyntaxWarning emitted next to each pair of logger calls is not observed,
+    the logger calls are, through the log_call hook.)
+(2) GPR.__init__(gpr_from): no argument -> body None, empty cache;  an Expression whose body is a parser output of a rule text ->
+    GPRCleaner().visit applied, cache = the cleaner's gene_set, body = deepcopy of the cleaned body, self.eval() reached with a
+    well-formed rule (obligation call:GPR.eval/heap/pre): value / names / cache are esc_sem / esc_names of the text;  an Expression
+    holding a clean well-formed tree without escape tokens -> value and names of that tree;  any node that is neither Expression nor
+    Module: TypeError.  (What the code does: update_genes is NOT called by __init__; it calls self.eval().)  NOT covered: a Module /
+    GPR argument, the str branch (calls from_string, then raises TypeError).
+    GPR.from_symbolic(e): not a BooleanFunction / Symbol -> TypeError, nothing changed;  e == Symbol("") -> GPR without body;
+    otherwise (e of the Symbol / Or / And fragment, identifiers of the converted tree without escape tokens) the result is a new
+    well-formed GPR with a body with semh == sympy_sem(e, K) and cache == names: Expression(_sympy_to_ast(e)) -> cls(tree) ->
+    update_genes().  GPR.to_string(names=None): the value of _ast2str(self) (ASSUMED string level: uninterpreted gpr_ast2str).
+(3) Reaction.gene_reaction_rule setter (the body under @resettable; the wrapper is the C03 kernel contract): for every case of
+    from_string self._gpr is the GPR with that case's post-condition, and update_genes_from_gpr() is called exactly ONCE, on self,
+    after _gpr was set, in the final heap (the call is RECORDED in the ghost `ug_calls`; its effect is the proved C02 contract
+    Reaction.update_genes_from_gpr, not re-applied here); a non-str rule: TypeError, _gpr unchanged, no call.  Reaction.gpr setter:
+    _gpr = value, one recorded call afterwards.  Getter: _ast2str text of self._gpr.
+Lemmas: induction steps of `an expression tree (Name / BoolOp nodes) ignores the body field` (the three axioms of
+more_tree_axioms); `from_string/value-and-genes-of-the-original-text`: the proved cases + the string-level assumption T2
+(escaping_is_faithful) give semh == gpr_text_sem(s, K) and names == gpr_text_names(s) for a text s of the grammar.
+NOT attempted: the shape of _ast2str (join / f-string recursion) and the printer / parser inversion lemma; the Module / GPR / str
+shapes of GPR.__init__.
+
+What is assumed (listed in the evidence)
+  ast.parse (SyntaxError or the Expression whose body is the parse tree of the text; functional allocation), GPRCleaner.visit on the
+  root (dispatch + generic_visit + the PROVED visit_BinOp + the string-level visit_Name: a parse tree of a rule text becomes a
+  well-formed tree with the value / names of the text with identifiers un-escaped; a clean tree without escape tokens keeps value
+  and names; gene_set gains the names; no other root's body is replaced), GPRCleaner(), ast.Module.__init__(), ast.Expression(body),
+  deepcopy of an expression tree (same value and names, nothing written), deepcopy of a set of strings, the closure-free
+  transcription of the proved _sympy_to_ast contract at its call site (+ ghost: its tree is no parser output), allocation facts of
+  cls(...) (non-null, class tag GPR, not the argument), GPR._ast2str, the converse unfolding of wfh at a root node (definition).
+
+Native observations (/venv/bin/python against /repo; consistent with the contracts, no violation inside the preconditions):
+  * from_string("a + b") and from_string("a < b") raise TypeError (visit_BinOp / self.eval()): accepted by CPython, not rule texts.
+  * `with model: r.gene_reaction_rule = 5` raises TypeError with the rule unchanged, but resettable.wrapper has already registered
+    the undo: the history holds one entry and leaving the context re-parses the old text (an equal rule in a NEW GPR object).
+  * from_symbolic(Symbol("a__COBRA_DOT__b")) gives the gene "a.b" (every tree goes through GPRCleaner): the precondition
+    `identifiers without escape tokens` is load-bearing.
+
+Mutation trials (tools/mutate_and_run.sh; every mutant left the named obligation unproved)
+  gene.py  __init__: `self.body = deepcopy(gpr_from.body)` -> `self.body = None`                     expression:* post.4 / .6 / .7
+  gene.py  __init__: `self._genes = deepcopy(cleaner.gene_set)` -> `self._genes = set()`             expression:* post.8 (cache)
+  gene.py  __init__: `cleaner.visit(gpr_from)` dropped                                               parsed_text post.6-8, clean_tree post.8
+  gene.py  __init__: `self.body = gpr_from` (the root instead of a copy of its body)                 call:GPR.eval/heap/pre
+  gene.py  from_string: `if char in str_expr` -> `if char not in str_expr`                           loop#0/inv-preserve (all cases)
+  gene.py  from_string: number_start_re.sub(.., str_expr) (wrong variable: keyword escaping lost)    call:GPR.__init__/cases-cover, post.5-7
+  gene.py  from_string: uppercase_AND.sub("or", ..)                                                  call:GPR.__init__/cases-cover, post.5-7
+  gene.py  from_string: `len(str_expr) == 0` -> `== 1`                                               accepted* post.4-7
+  gene.py  from_string: final `gpr = cls(tree)` -> `gpr = cls()`                                     accepted* post.4-7
+  gene.py  from_string: type check `if not isinstance(..)` -> `if False`                             not_a_string undecided (str method on an int)
+  gene.py  from_symbolic: `== Symbol("")` -> `== Symbol("x")`                                        empty_symbol post.4-7, expression post.4-5
+  gene.py  from_symbolic: converter applied to Symbol("g") instead of the argument                   call:..._sympy_to_ast@callsite/pre, post.5
+  gene.py  to_string: `_ast2str(self.body, ..)`                                                       post (sat)
+  reaction.py  gene_reaction_rule setter: the two statements swapped                                  post.8 / post.9 (recorded call), not_a_string post
+  reaction.py  gpr setter: update_genes_from_gpr() call dropped                                       post.2 (sat)
+  (from_string / from_symbolic without their final `gpr.update_genes()` still verify: GPR.__init__ has already filled the cache from the
+   cleaner's gene_set - the call is redundant for the stated post-condition)
 """
 import z3
 from .common import *  # noqa
@@ -502,9 +585,6 @@ def _new_gpr_facts(E):
 
 
 def _warned(E, *cats):
-    import os
-    if os.environ.get("G8_DEBUG"):
-        print("WARN TRACE", wtrace(E.s1), cats)
     if E.role != "goal":
         return z3.BoolVal(True)       # at a call site the ghost trace is not handed over: the warnings are a clause of the PROVED cases only
     return z3.BoolVal(tuple(wtrace(E.s1)) == tuple(cats))
@@ -708,8 +788,8 @@ def _one_update_call(E):
     then, now = calls[0][1].objs[E["self"].oid]["attr:_gpr"], _gpr_now(E, E.s1)
     if not (isinstance(then, VRef) and isinstance(now, VRef)):
         return z3.BoolVal(False)
-    same_heap = all(calls[0][1].heap.get(f) is E.s1.heap.get(f) or calls[0][1].heap.get(f).eq(E.s1.heap.get(f))
-                    for f in ("body", "gpr_genes", "values_n", "values_seq", "ast_tag", "id", "op") if f in E.s1.heap)
+    same_heap = all(E.eng.heap_arr(calls[0][1], f).eq(E.eng.heap_arr(E.s1, f))
+                    for f in ("body", "gpr_genes", "values_n", "values_seq", "ast_tag", "id", "op"))
     return z3.And(then.t == now.t, z3.BoolVal(same_heap))
 
 
